@@ -730,6 +730,25 @@ class E9Determinism(Engine):
                 scripts.append(BuzzGen(rng, avoid, tier).generate()["script"])
             else:
                 scripts.append(InputGen(rng, avoid, tier).generate()["script"])
+        # rejected twins: the same script with one call of the wrong arity (or an unsupported statement) appended.
+        # A transpilation that fails half-way must not leave anything behind that changes a later, valid one.
+        expect_reject = []
+        for i in range(len(scripts)):
+            text = scripts[i]
+            m = re.search(r"^def (\w+)\(([^)]*)\):", text, re.M)
+            if m and rng.random() < 0.4:
+                nargs = len([a for a in m.group(2).split(",") if a.strip()])
+                bad = rng.choice([
+                    f"zz = {m.group(1)}({', '.join(['1.5'] * (nargs + 1))})",
+                    f"zz = {m.group(1)}({', '.join(['1'] * max(0, nargs - 1))})" if nargs else f"zz = {m.group(1)}(1, 2)",
+                    f"{m.group(1)}({', '.join(['1.5'] * nargs)})\nzz = [1, [2]]",
+                ])
+                head, sep, tail = text.partition("while True:")
+                twin = head + bad + "\n" + sep + tail if sep else text + bad + "\n"
+                pos = rng.choice([i, len(scripts)])
+                scripts.insert(pos, twin)
+                expect_reject.append(pos)
+                break
         n_seeds = 4 if tier == "quick" else 28
         hash_seeds = [0, 1, 2, 3] + [rng.randint(4, 4294967295) for _ in range(n_seeds)]
         n = len(scripts)
@@ -748,7 +767,7 @@ class E9Determinism(Engine):
         histories.append(h)
         # reversed sequential
         histories.append([["both", i] for i in reversed(range(n))])
-        return {"scripts": scripts, "hash_seeds": hash_seeds, "histories": histories}
+        return {"scripts": scripts, "hash_seeds": hash_seeds, "histories": histories, "expect_reject": expect_reject}
 
     def execute(self, case: dict) -> Outcome:
         import json
@@ -790,19 +809,31 @@ class E9Determinism(Engine):
                     faults={"hash_seed": len(case["hash_seeds"]), "call_interleaving": len(case["histories"]) - 1},
                     detail={"script": case["scripts"][int(i)]},
                 )
-        accepted = all(not next(iter(v)).startswith("!") for v in seen.values())
+        twins = {str(i) for i in case.get("expect_reject", [])}
+        accepted = all(not next(iter(v)).startswith("!") for i, v in seen.items() if i not in twins)
         return Outcome(
             "ok", digest=sha("".join(case["scripts"]))[:16], nontrivial=accepted,
-            faults={"hash_seed": len(case["hash_seeds"]), "call_interleaving": len(case["histories"]) - 1},
+            faults={"hash_seed": len(case["hash_seeds"]), "call_interleaving": len(case["histories"]) - 1,
+                    "failed_transpile_in_history": len(twins)},
             probes={"scripts": len(case["scripts"]), "interpreters": runs},
         )
 
     def shrink_candidates(self, case: dict) -> Iterable[dict]:
         n = len(case["scripts"])
+        if n > 2:
+            for t in case.get("expect_reject", []):
+                for j in range(n):
+                    if j != t:
+                        c = copy.deepcopy(case)
+                        c["scripts"] = [case["scripts"][t], case["scripts"][j]]
+                        c["histories"] = [[["both", 0], ["both", 1]], [["both", 1], ["both", 0]]]
+                        c["expect_reject"] = [0]
+                        yield c
         if n > 1:
             for i in range(n):
                 c = copy.deepcopy(case)
                 c["scripts"] = [case["scripts"][i]]
+                c["expect_reject"] = []
                 c["histories"] = [[["both", 0]], [["parse", 0], ["emit", 0], ["emit", 0], ["both", 0]]]
                 yield c
         if len(case["hash_seeds"]) > 2:
@@ -832,11 +863,11 @@ class E9Hostile(Engine):
         "time: deterministic budget of traced interpreter steps + RLIMIT_CPU in a worker subprocess (big-int arithmetic produces no trace events)",
     ]
     assumptions = [
-        "prompt termination = 400000 + 3000*len(text) traced lines inside Reduino code and 20 s of CPU for a batch of 17 texts",
+        "prompt termination = 400000 + 3000*len(text) traced lines inside Reduino code and 20 s of CPU for a batch of 18 texts",
         "SyntaxError is accepted only for text that ast.parse itself rejects",
     ]
     rule = (
-        "each case = 17 texts: hostile expressions (code execution, file/process/network/env access, huge arithmetic, "
+        "each case = 18 texts: hostile expressions (code execution, file/process/network/env access, huge arithmetic, "
         "deep nesting, wrong types) planted in ~60 argument positions the parser folds or re-parses; mutated valid "
         "scripts; byte noise. Judged per text: result is str or ValueError (SyntaxError only if not Python), no audit "
         "event, no canary, no env/cwd/module-state change, within the step and CPU budget; non-trivial = at least one "
@@ -844,7 +875,7 @@ class E9Hostile(Engine):
     )
 
     def generate(self, rng, tier: str, avoid) -> dict:
-        from dst.gen.hostile import growth_chain, hostile_texts, mutate_text, noise, rejection_texts, wild_script
+        from dst.gen.hostile import growth_chain, hostile_texts, mutate_text, noise, padded_statement, rejection_texts, wild_script
         from dst.gen.programs import GenOptions, ProgGen
 
         canary = "/verif/.work/canary/HIT"
@@ -858,6 +889,7 @@ class E9Hostile(Engine):
         # supported subset with undefined run-time behaviour (an internal error must still not escape)
         texts.append(growth_chain(rng))
         texts += [wild_script(rng) for _ in range(3)]
+        texts.append(padded_statement(rng))
         skip = set(avoid)
         if "hostile_bigint" in skip:
             texts = [t for t in texts if not re.search(r"\*\*\s*\d+\s*\*\*|<<\s*10\s*\*\*|\*\*\s*7777|\* 10\*\*10|10\*\*8", t)] or ["x = 1\n"]
